@@ -111,7 +111,12 @@ F_AllAsIs(c)   == <<S("DBB", "Update")>> \o RLRU("mTorrents") \o <<S("DBE", "Upd
 \* repaired: snapshot of the registry first, then the transaction, then the commands
 F_AllFixed(c)  == RLRU("mTorrents") \o DBTX \o <<E("SEND", c)>>
 
-F_stop(fx) == <<S("RES", "WriteBitfield")>> \o (IF "dhtDropOnStop" \in fx THEN WLWU("mPeerRequests") ELSE <<>>) \o RLRU("mBitfield")
+\* stop(): the loop JOINS its helper goroutines (X.Close() = close(closeC); <-doneC): the tracker announcers, the DHT
+\* announcer (whose callback torrent.announceDHT takes mPeerRequests), the allocator and the verifier. A join is an
+\* acquisition of what the joined goroutine may be waiting for (C1 below): a join made while holding that resource is a lock-up.
+F_stop(fx) == <<S("RES", "WriteBitfield"), E("JOIN", "an"), S("JOIN", "dhtAnnouncer")>>
+              \o (IF "dhtDropOnStop" \in fx THEN WLWU("mPeerRequests") ELSE <<>>)
+              \o <<S("JOIN", "allocator"), S("JOIN", "verifier")>> \o RLRU("mBitfield")
 
 ProgV(op, fx) ==
     CASE op = "Session.ListTorrents"   -> RLRU("mTorrents")
@@ -160,7 +165,7 @@ ProgV(op, fx) ==
       [] op = "torrent.announcerFields" -> RLRU("mBitfield")
       \* the loop: what stop() is made of (also the close path: close() = stop() ; ... ; close(doneC))
       [] op = "torrent.stop"           -> F_stop(fx)
-      [] op = "torrent.close"          -> F_stop(fx)
+      [] op = "torrent.close"          -> F_stop(fx) \o <<S("JOIN", "stoppedEventAnnouncer")>>
       \* derived variant (not a root of its own): AddPeer with a host name takes the `alt` go statement
       [] op = "Torrent.AddPeer#host"   -> <<S("GO", "torrent.resolveAndAddPeer")>>
       [] OTHER -> <<>>
@@ -221,6 +226,14 @@ C1(s, t) ==   \* one flat step for one torrent t (t may be "new": a torrent nobo
       [] s.k = "CLOSE" -> IF s.r = "closeC" /\ t # "new" /\ (s.each \/ s.g > 0 \/ t # "") THEN <<[k |-> "CLOSET", m |-> "closeC", t |-> t]>> ELSE <<>>
       [] s.k = "WAIT" -> <<[k |-> "WAITALL", m |-> "wg", t |-> ""]>>
       [] s.k = "GO" -> IF s.r = "lit" THEN <<>> ELSE <<[k |-> "GO", m |-> s.r, t |-> t]>>
+      \* join of a helper goroutine = acquire-and-release of every resource the helper's body takes:
+      \*   DHTAnnouncer.Run -> torrent.announceDHT -> mPeerRequests (the announcer may be inside, or committed to, an announce);
+      \*   allocator.Run / verifier.Run / PeriodicalAnnouncer.Run / StopAnnouncer.Run wait only on channels in selects that
+      \*   have a closeC case (the close-aware discipline; exercised on the real code by the `phases` histories of harness/c20)
+      [] s.k = "JOIN" ->
+            IF s.r = "dhtAnnouncer" /\ t \notin {"new", ""}
+            THEN <<[k |-> "WL", m |-> "mPeerRequests", t |-> ""], [k |-> "WU", m |-> "mPeerRequests", t |-> ""]>>
+            ELSE <<>>
       [] OTHER -> <<>>
 
 \* consecutive `each` steps are the body of one for-loop over the torrents: the body is repeated per torrent
@@ -328,7 +341,7 @@ Can(p) ==
     /\ LET s == Cur(p) IN
        CASE s.k = "RL" -> lk.wr[s.m] = "none"                                   \* a PENDING writer blocks new readers
          [] s.k = "WL" -> \/ lk.wr[s.m] = "none"
-                          \/ lk.wr[s.m] = p /\ lk.rdr[s.m] = {}
+                          \/ lk.wr[s.m] = p /\ ~lk.wh[s.m] /\ lk.rdr[s.m] = {}   \* (a holder that locks again waits for itself)
          [] s.k \in {"DBB", "DBX"} -> lk.db = "none"
          [] s.k = "SEND" -> Idle(s.t) \/ closed[s.t]
          [] s.k = "RECV" -> reply[p] \/ closed[s.t]
@@ -455,7 +468,7 @@ WaitsFor(p) ==
     IF ~Active(p) THEN {}
     ELSE LET s == Cur(p) IN
        CASE s.k = "RL" -> {lk.wr[s.m]} \ {"none"}
-         [] s.k = "WL" -> IF lk.wr[s.m] = p THEN lk.rdr[s.m] ELSE {lk.wr[s.m]} \ {"none"}
+         [] s.k = "WL" -> IF lk.wr[s.m] = p THEN (IF lk.wh[s.m] THEN {p} ELSE lk.rdr[s.m]) ELSE {lk.wr[s.m]} \ {"none"}
          [] s.k \in {"DBB", "DBX"} -> {lk.db} \ {"none"}
          [] s.k \in {"SEND", "RECV", "WAITDONE"} -> {LoopOf(s.t)}
          [] s.k = "WAITALL" -> {LoopOf(t) : t \in {x \in Torrents : ~done[x]}}
